@@ -91,7 +91,9 @@ def run(rep, tier):
                          workers=2, timeout=3600)
         fq = pool.submit(_mc, rep, "C17_CongCImpl", "C17_CongCImpl_queries.cfg" if quick else "C17_CongCImpl_queries3.cfg", wd,
                          wd / "scratch_q.csv", workers=1, coverage=True)
-        rs = [f.result() for f in futs] + [fi.result()]
+        vec4 = wd / "vectors_c4.csv"
+        ff = pool.submit(_mc, rep, "C17_CongCImpl", "C17_CongCImpl_forest.cfg", wd, vec4, workers=1)
+        rs = [f.result() for f in futs] + [fi.result(), ff.result()]
         rq = fq.result()
     if any(r.violated for r in rs + [rq]):
         return
@@ -101,7 +103,8 @@ def run(rep, tier):
     rep.notes["action_coverage"] = {k: list(v) for k, v in cov.items()}
     for act in ("Merge", "PropagateOne", "Test", "Explain", "Return"):
         require(cov.get(act, (0, 0))[1] > 0, "action %s of C17_CongCImpl never taken (coverage %s)" % (act, cov))
-    extra = []   # (name, vector file, max, every)
+    require(_nlines(vec4) >= 150, "C17_CongCImpl_forest.cfg emitted too few vectors: %d" % _nlines(vec4))
+    extra = [("c4", vec4, 0, 0)]   # (name, vector file, max, every)
     if not quick:
         with _Phase(rep, "model_checking_larger"):
             v2 = wd / "vectors_wide.csv"
@@ -130,7 +133,7 @@ def run(rep, tier):
                 [("C17_CongCAlgo.tla", "UseFold(rep2, us, i+1, lk, ub, Append(np, LabF(e, lk[k])))", "UseFold(rep2, us, i+1, lk, ub, np)")],
                 ["TestCorrect", "LookupComplete"])]
     if not quick:
-        mutants += [("forest_path_not_reversed", "C17_CongCImpl", "C17_CongCImpl_small.cfg",
+        mutants += [("forest_path_not_reversed", "C17_CongCImpl", "C17_CongCImpl_forest.cfg",
                      [("C17_CongCAlgo.tla", "THEN LET i == CHOOSE i \\in 1..(Len(path) - 1) : path[i+1][1] = c IN <<path[i][1], path[i+1][2]>>",
                        "THEN pf[c]")], ["ExplainCorrect", "ForestMatchesRep"]),
                     ("use_list_not_moved", "C17_CongCImpl", "C17_CongCImpl_small.cfg",
@@ -155,10 +158,10 @@ def run(rep, tier):
             ("c17", ["uf", vec, 100 if quick else 0, 120 if quick else 3000, wd / "uf.ndjson", sd], None)]
     traces = ["core", "hol", "holrand", "uf"]
     for name, vf, mx, every in extra:
-        jobs.append(("c17", ["core", vf, wd / ("core_%s.ndjson" % name), sd, mx, every, 1 if name == "wide" else 0], None))
+        jobs.append(("c17", ["core", vf, wd / ("core_%s.ndjson" % name), sd, mx, every, 1 if name in ("wide", "c4") else 0], None))
         traces.append("core_" + name)
     if not quick:
-        jobs.append(("c17", ["hol", extra[0][1], wd / "hol_wide.ndjson", sd, 3000], None))
+        jobs.append(("c17", ["hol", wd / "vectors_wide.csv", wd / "hol_wide.ndjson", sd, 3000], None))
         traces.append("hol_wide")
     with _Phase(rep, "drivers"):
         run_drivers_parallel(jobs, max_workers=2)
